@@ -183,7 +183,10 @@ def to_cobra(net, solver="glpk", name="net"):
             rx.bounds = (lb, ub)
             rx.add_metabolites({mets[k]: v for k, v in st.items()})
         if r.get("gpr"):
-            rx.gene_reaction_rule = r["gpr"]
+            if style in (5, 9):         # the rule arrives as a GPR object once the reaction is in the model
+                later.append(("gprobj", rx, r["gpr"]))
+            else:
+                rx.gene_reaction_rule = r["gpr"]
         rs.append(rx)
     m.add_reactions(rs)
     for what, rx, arg in later:
@@ -201,6 +204,9 @@ def to_cobra(net, solver="glpk", name="net"):
                 rx.lower_bound = lb
         elif what == "replace":
             rx.add_metabolites({mets[k]: v for k, v in arg.items()}, combine=False)
+        elif what == "gprobj":
+            from cobra.core.gene import GPR
+            rx.gpr = GPR.from_string(arg)
     obj = {m.reactions.get_by_id(r["id"]): float(F(r["obj"])) for r in net["rxns"] if F(r["obj"]) != 0}
     if style in (1, 3, 6, 8):
         m.objective_direction = net["dir"]        # the direction is chosen BEFORE the objective is assigned
